@@ -26,7 +26,8 @@ MANIFEST = {
     "level_note": "Backends are in-process fakes that always produce the scripted rows (no backend faults, no multi-statement "
                   "results, one column); rows of one case all have the same length; limits are small (2..20) so that results "
                   "around the limit stay small, the 16 MiB threshold is the real one; 17 MiB-row cases run in the thorough tier "
-                  "only; the four-result mode is enumerated for limit 3 and small rows only; the design's terminal state is a "
+                  "only; the four-result mode and the two-result-set mode (one unsharded statement answered with two result sets) are "
+                  "enumerated for limit 3 and small rows only; the design's terminal state is a "
                   "prediction that is compared with the implementation (model drift) but never produces a verdict; the design "
                   "variant with the three defects repaired by 5a26ea1 / 9502c9e / d751f23 is kept in the specification as "
                   "documentation (constants LimitInclusive / ShardIgnoresMore / LimitPerChunk).",
@@ -55,7 +56,7 @@ def crosses(c):
 
 def signature(c, o, v):
     """signature of a deviation, from the case, the observation and TLC's verdict; None when there is none"""
-    mc = "unsharded" if c["mode"] == "unsharded" else "sharded"
+    mc = {"unsharded": "unsharded", "multi2": "multi-result"}.get(c["mode"], "sharded")
     cr = "above-threshold" if crosses(c) else "below-threshold"
     mr = rel(c, max(c["n"]))
     out = o["outcome"]
